@@ -176,6 +176,15 @@ class World:
         git(self.work, 'push', '-q', '--all', 'origin')
         git(self.work, 'push', '-q', '--tags', 'origin')
 
+    def cmd_line_options(self):
+        """`no_octopus` is an OPTION (Reactor): it reaches `job.settings` only from the command line
+        (`gwf.setup({key: True ...})` installs it as the option's default) or from a comment; a settings key of
+        that name is shadowed by the option's default `False` in every job."""
+        opts = list(self.cfg.options)
+        if self.cfg.no_octopus and 'no_octopus' not in opts:
+            opts.append('no_octopus')
+        return opts
+
     def fresh_instance(self):
         """A new BertE object (a restarted server)."""
         from bert_e.bert_e import BertE
@@ -189,8 +198,8 @@ class World:
                                          author_approval=c.author_approval))
         settings = setup_settings(yml)
         settings.update(dict(robot_password='pw', jira_token='t', backtrace=True, quiet=True,
-                             disable_queues=not c.use_queue, cmd_line_options=list(c.options),
-                             skip_queue_when_not_needed=c.skip_queue, no_octopus=c.no_octopus))
+                             disable_queues=not c.use_queue, cmd_line_options=self.cmd_line_options(),
+                             skip_queue_when_not_needed=c.skip_queue))
         settings.update(c.extra)
         if self.berte is not None:
             try:
